@@ -63,6 +63,10 @@ class Encoder:
         self.shared = {}             # share id -> slot index
         self.strtab = {}             # py2 interned strings: bytes -> index of first 't'
         self.nstr = 0
+        self.tcount = {}             # py2: how many 't' slots each byte string has taken
+        # py2 string policy once the choice stream is exhausted (peeked, not consumed): 0 = plain 's' / 'R' when known,
+        # 1 = intern every first occurrence, 2 = intern the first two occurrences (a second 't' takes a second slot)
+        self.strmode = (self.ch.data[0] // 4) % 3 if getattr(self.ch, "data", None) else 0
         self.features = set()
 
     # -- primitives
@@ -227,6 +231,13 @@ class Encoder:
         if text_ok and (self.v < (2, 5) or self.ch.pick(3) == 1):
             if float(txt) == f and (f != 0 or not str(f).startswith("-")):
                 self.features.add("textfloat")
+                if self.ch.pick(4) == 1 and abs(f) < 1e60:
+                    # the length byte is unsigned: a legal text of 128..255 bytes (old writers used "%.17g"; any
+                    # decimal text of the value is acceptable to the reader)
+                    long_txt = ("%.150f" % f).encode("ascii")
+                    if 127 < len(long_txt) < 256 and float(long_txt) == f:
+                        txt = long_txt
+                        self.features.add("textfloat>=128")
                 self.code("f", flag)
                 self.out.append(len(txt))
                 self.w(txt)
@@ -255,9 +266,9 @@ class Encoder:
     def w_bytes(self, b, flag):
         """py3 bytes / py2 str"""
         if self.py2 and self.v >= (2, 4):
-            forms = ["s", "t"]
+            forms = ["s", "t"] if self.strmode == 0 else ["t", "s"]
             if b in self.strtab:
-                forms = ["R", "s", "t"]
+                forms = ["t", "R", "s"] if (self.strmode == 2 and self.tcount.get(b, 0) < 2) else ["R", "s", "t"]
             f = forms[self.ch.pick(len(forms))]
             if f == "R":
                 self.features.add("py2-stringref")
@@ -267,7 +278,11 @@ class Encoder:
             if f == "t":
                 # every 't' takes the next slot of the interned-string table
                 self.features.add("py2-interned")
-                self.strtab.setdefault(b, self.nstr)
+                # (a repeated 't' of the same bytes takes a new slot too; a later 'R' may name any of them: use the newest)
+                if b in self.strtab:
+                    self.features.add("py2-interned-twice")
+                self.strtab[b] = self.nstr
+                self.tcount[b] = self.tcount.get(b, 0) + 1
                 self.nstr += 1
                 self.code("t")
                 self.w_long(len(b))
